@@ -7,7 +7,7 @@ import numpy as np
 import z3
 
 from .base import Family, register
-from ..sym.core import SInt, cur
+from ..sym.core import SInt, cur, fresh_name
 from ..sym.arr import SymArr, I, dim_term
 
 
@@ -391,3 +391,132 @@ class Rl2dJoinRuns(Family):
         for k in range(1, 4):
             for ls in itertools.product((1, 2, 3), repeat=k):
                 yield {"lengths": list(ls)}
+
+
+def sym_rl_ragged(ctx, name="rr", kind="elem", min_rows=0):
+    """a well-formed RunLengthRaggedArray over SpecRagged operands: n rows, row r has k_r = VL(r) >= 1 runs, boundaries B(r, 0..k_r) with
+    B(r, 0) = 0 strictly increasing (so the row has B(r, k_r) >= 1 positions), values W(r, 0..k_r-1)"""
+    from npstructures.runlengtharray import RunLengthRaggedArray
+    from .specragged import SpecRagged, SpecShape
+    n = z3.Int(fresh_name(name + "_n"))
+    ctx.assume(n >= min_rows)
+    VL = z3.Function(fresh_name(name + "_runs"), z3.IntSort(), z3.IntSort())
+    ctx.assume_forall(name + ".runs>=1", lambda r: z3.Implies(z3.And(0 <= r, r < n), VL(r) >= 1))
+    vals = SpecRagged.symbolic(ctx, name + "_W", n, lambda r: VL(r), kind=kind)
+    inds = SpecRagged.symbolic(ctx, name + "_B", n, lambda r: VL(r) + 1, kind="int")
+    B, W = inds.fn, vals.fn
+    ctx.assume_forall(name + ".B0", lambda r: z3.Implies(z3.And(0 <= r, r < n), B(r, 0) == 0))
+    ctx.assume_forall(name + ".B.incr", lambda r, c: z3.Implies(z3.And(0 <= r, r < n, 0 <= c, c < VL(r)), B(r, c) < B(r, c + 1)), arity=2)
+    obj = RunLengthRaggedArray(inds, vals)
+    return {"n": n, "VL": VL, "B": B, "W": W, "inds": inds, "vals": vals, "obj": obj}
+
+
+@register
+class RlRaggedRavel(Family):
+    """RunLengthRaggedArray.ravel(): the 1-D run-length array of the rows laid end to end.  With off(r) = total length of the rows before r:
+    run c of row r becomes run VS(r) + c (VS = prefix sums of the runs per row) with boundaries off(r) + B(r, c) .. off(r) + B(r, c+1) and value
+    W(r, c); the last boundary is the total length; the RunLengthArray constructor's assertions cannot fail.
+    The ragged operands are contract-level stand-ins (SpecRagged, audited against the real RaggedArray)."""
+    name = "RunLengthRaggedArray.ravel"
+    qualname = "npstructures.runlengtharray:RunLengthRaggedArray.ravel"
+    serves = ["C17", "C15"]
+    timeout_ms = 30000
+    assumed = ["RaggedArray operations through their contracts (SpecRagged: x[:, -1], x[:, :-1], x + column, ravel; proved in the C01-C04 families, audited)",
+               "numpy.cumsum = prefix sums, numpy.insert(a, 0, 0), numpy.append", "lemma same-lengths=>same-starts, lemma partition-point (vf.proofs.lemmas)"]
+
+    def extra_functions(self):
+        return ["RunLengthArray.__init__"]
+
+    def _lemmas(self, ctx, st, flat_shape):
+        """the flattened boundary array has the geometry of the value array (same row lengths => same starts); off = prefix sums of the row lengths"""
+        n, VL, B = st["n"], st["VL"], st["B"]
+        VS = st["vals"]._shape.S
+        r = z3.Int("lr")
+        ctx.prove("lemma: the boundaries without their last column have the row lengths of the values", z3.Implies(z3.And(0 <= r, r < n), flat_shape.L(r) == VL(r)),
+                  pool=[r], kind="lemma")
+        ctx.assume_forall("same lengths => same starts (lemma library)", lambda r_: z3.Implies(z3.And(0 <= r_, r_ <= n), flat_shape.S(r_) == VS(r_)))
+
+    def late_lemmas(self, ctx, kind, exc):
+        """the RunLengthArray constructor's three assertions cannot fail"""
+        st = ctx.ghost.get("st")
+        if st is None or not isinstance(exc, AssertionError) or "flat_shape" not in st:
+            return
+        n, VL, B = st["n"], st["VL"], st["B"]
+        fs = st["flat_shape"]
+        self._lemmas(ctx, st, fs)
+        VS = st["vals"]._shape.S
+        Z, One = z3.IntVal(0), z3.IntVal(1)
+        ffs = ctx.ghost.get("forall_facts", [])
+        if ffs:
+            w = ffs[-1]["w"]
+            rho, rho2 = fs.rowof(w), fs.rowof(w + 1)
+            ctx.prove_then_assume("late.lemma: the flattened boundaries increase strictly (inside a row, and from a row's last run to the next row's first)",
+                                  z3.BoolVal(False), kind="lemma",
+                                  pool=[w, w + 1, w + 2, rho, rho + 1, rho + 2, rho2, rho2 + 1, w - VS(rho), w + 1 - VS(rho), w + 1 - VS(rho2), n, n - 1, VS(n), Z, One])
+        else:
+            ctx.prove_then_assume("late.lemma: first boundary 0 and one boundary more than values", z3.BoolVal(False), kind="lemma",
+                                  pool=[Z, One, n, n - 1, VS(n), fs.rowof(Z), fs.rowof(Z) + 1])
+
+    def run(self, ctx, kind):
+        st = sym_rl_ragged(ctx)
+        ctx.ghost["st"] = st
+        n, VL, B, W = st["n"], st["VL"], st["B"], st["W"]
+        VS = st["vals"]._shape.S
+        # spy on the column-sliced boundaries to learn their geometry object
+        from .specragged import SpecRagged
+        real_getitem = SpecRagged.__getitem__
+
+        def spy(self_, idx):
+            out = real_getitem(self_, idx)
+            if isinstance(out, SpecRagged) and self_ is st["inds"]:
+                st["flat_shape"] = out._shape
+            return out
+        SpecRagged.__getitem__ = spy
+        from ..sym.theory import prefix_sum
+        lens = st["inds"][:, -1]
+        st["off"] = prefix_sum(lens)
+        try:
+            out = st["obj"].ravel()
+        finally:
+            SpecRagged.__getitem__ = real_getitem
+        off, fs = st["off"], st["flat_shape"]
+        self._lemmas(ctx, st, fs)
+        ev, va = out._events, out._values
+        ctx.prove("post.one run per run of every row, one boundary more", z3.And(dim_term(va.shape_[0]) == VS(n), dim_term(ev.shape_[0]) == VS(n) + 1))
+        ctx.prove("post.last boundary is the total length of all rows", ev.get(VS(n)) == off(n), pool=[n, VS(n), z3.IntVal(0)])
+        r, c = z3.Int("r"), z3.Int("c")
+        ctx.skolem(z3.And(0 <= r, r < n, 0 <= c, c < VL(r)))
+        t = VS(r) + c
+        vrow = st["vals"]._shape.rowof
+        pool = [r, r + 1, c, c + 1, t, t + 1, n, n - 1, VS(n), fs.rowof(t), fs.rowof(t) + 1, fs.rowof(t + 1), fs.rowof(t + 1) + 1, vrow(t), vrow(t) + 1,
+                z3.IntVal(0), z3.IntVal(1)]
+        ctx.prove_then_assume("post.lemma: flat position VS(r) + c lies in row r", z3.And(fs.rowof(t) == r, z3.Implies(c + 1 < VL(r), fs.rowof(t + 1) == r),
+                                                                                     z3.Implies(z3.And(c + 1 == VL(r), r + 1 < n), fs.rowof(t + 1) == r + 1)), pool=pool)
+        ctx.prove("post.run c of row r is run VS(r)+c: value W(r, c), boundaries off(r) + B(r, c) and off(r) + B(r, c+1)",
+                  z3.And(va.get(t) == W(r, c), ev.get(t) == off(r) + B(r, c), ev.get(t + 1) == off(r) + B(r, c + 1)), pool=pool + [VL(r), VL(r) - 1])
+        ctx.prove("post.row r occupies [off(r), off(r+1)) and off(r+1) = off(r) + length of row r", off(r + 1) == off(r) + B(r, VL(r)), pool=[r, r + 1], live=[c])
+        ctx.prove("post.operands not modified", z3.BoolVal(st["inds"].writes == 0 and st["vals"].writes == 0))
+
+    def concrete(self, case):
+        from npstructures import RaggedArray
+        from npstructures.runlengtharray import RunLengthRaggedArray
+        rows = case["rows"]
+        rr = RunLengthRaggedArray.from_ragged_array(RaggedArray(rows))
+        flat = rr.ravel()
+        exp = [v for row in rows for v in row]
+        if np.asarray(flat).tolist() != exp:
+            return {"msg": f"RunLengthRaggedArray.ravel() for rows {rows}: {np.asarray(flat).tolist()}", "sig": "wrong:rlragged-ravel"}
+
+    def concretise(self, kind, model, ghost):
+        return {"rows": [[1, 1, 2], [2], [3, 3]]}
+
+    def bounded_cases(self, tier, seed):
+        import itertools
+        for k in range(1, 4):
+            for ls in itertools.product((1, 2, 3), repeat=k):
+                for pat in range(2):
+                    rows, v = [], 0
+                    for l in ls:
+                        rows.append([(v + i) // (pat + 1) % 3 for i in range(l)])
+                        v += l
+                    yield {"rows": rows}
